@@ -289,3 +289,91 @@ func Hash(s string) uint64 {
 	h.Write([]byte(s))
 	return h.Sum64()
 }
+
+// LargeDocs returns documents well beyond the size of the seeds (thousands of
+// positions, hundreds of holes / children, long member texts, deep nesting).
+// They are checked as they are (no deviations): size-dependent behaviour
+// (buffer growth, index thresholds, offsets into the extra-ordinate array).
+func LargeDocs() []string {
+	var out []string
+	pts := func(n, dims int, f func(i int) (float64, float64)) string {
+		var sb strings.Builder
+		sb.WriteByte('[')
+		for i := 0; i < n; i++ {
+			if i > 0 {
+				sb.WriteByte(',')
+			}
+			x, y := f(i)
+			v := []float64{x, y}
+			for d := 2; d < dims; d++ {
+				v = append(v, float64(i*10+d))
+			}
+			sb.WriteString(Pos(v...))
+		}
+		sb.WriteByte(']')
+		return sb.String()
+	}
+	zig := func(i int) (float64, float64) { return float64(i%97) * 0.25, float64(i/97)*0.5 + float64(i%2)*0.125 }
+	for _, n := range []int{63, 64, 65, 1000, 5000} {
+		for _, dims := range []int{2, 3, 4} {
+			out = append(out, Obj("LineString", `"coordinates":`+pts(n, dims, zig)))
+		}
+	}
+	// polygon with many small holes, z values on every position
+	ring := func(x0, y0, w float64, dims int, base int) string {
+		c := [][2]float64{{x0, y0}, {x0 + w, y0}, {x0 + w, y0 + w}, {x0, y0 + w}, {x0, y0}}
+		var ps []string
+		for i, p := range c {
+			v := []float64{p[0], p[1]}
+			for d := 2; d < dims; d++ {
+				v = append(v, float64(base*10+i+d))
+			}
+			ps = append(ps, Pos(v...))
+		}
+		return "[" + strings.Join(ps, ",") + "]"
+	}
+	for _, holes := range []int{3, 10, 120} {
+		for _, dims := range []int{2, 3} {
+			rs := []string{ring(0, 0, 100, dims, 0)}
+			for h := 0; h < holes; h++ {
+				rs = append(rs, ring(float64(2+(h%12)*8), float64(2+(h/12)*8), 4, dims, h+1))
+			}
+			out = append(out, Obj("Polygon", `"coordinates":[`+strings.Join(rs, ",")+`]`, `"id":`+strconv.Itoa(holes)))
+		}
+	}
+	// collections with many children (child-index threshold 64), members on children
+	for _, n := range []int{63, 64, 65, 500} {
+		var feats, geoms, mp []string
+		for i := 0; i < n; i++ {
+			x, y := float64(i%25)*0.5, float64(i/25)*0.5
+			feats = append(feats, Obj("Feature", `"geometry":`+Obj("Point", `"coordinates":`+Pos(x, y, float64(i))), `"id":`+strconv.Itoa(i)+`,"properties":{"i":`+strconv.Itoa(i)+`}`))
+			if i%3 == 0 {
+				geoms = append(geoms, Obj("LineString", `"coordinates":[`+Pos(x, y)+`,`+Pos(x+0.25, y+0.25)+`]`))
+			} else {
+				geoms = append(geoms, Obj("Point", `"coordinates":`+Pos(x, y)))
+			}
+			mp = append(mp, Pos(x, y))
+		}
+		out = append(out, Obj("FeatureCollection", `"features":[`+strings.Join(feats, ",")+`]`, `"bbox":[0,0,13,10]`))
+		out = append(out, Obj("GeometryCollection", `"geometries":[`+strings.Join(geoms, ",")+`]`))
+		out = append(out, Obj("MultiPoint", `"coordinates":[`+strings.Join(mp, ",")+`]`))
+	}
+	// long member text and deep nesting of foreign values
+	long := strings.Repeat(`"k`+strings.Repeat("x", 50)+`":[1,2,{"a":"`+strings.Repeat("é", 40)+`"}],`, 200)
+	out = append(out, Obj("Feature", `"geometry":`+Obj("Point", `"coordinates":[1,2]`), long+`"properties":{"n":1}`))
+	deep := "1"
+	for i := 0; i < 60; i++ {
+		deep = `{"d":[` + deep + `]}`
+	}
+	out = append(out, Obj("Point", `"coordinates":[1,2]`, `"deep":`+deep))
+	nest := Obj("Point", `"coordinates":[1,2]`)
+	for i := 0; i < 40; i++ {
+		if i%2 == 0 {
+			nest = Obj("GeometryCollection", `"geometries":[`+nest+`]`)
+		} else {
+			nest = Obj("Feature", `"geometry":`+nest, `"id":`+strconv.Itoa(i))
+		}
+	}
+	out = append(out, nest)
+	return out
+}
